@@ -329,7 +329,7 @@ _RULE_EXTRA = {
     "C01": "; 1 in 6 small tables go through the real command line instead (`wrgl commit` then `wrgl export` on a badger + SQLite repository; the exported CSV must hold the model's stored rows in order); plus one size-boundary table per run (1 044 481 rows = 4097 blocks, 8 workers), read back in aggregate",
     "C03": "; plus the size-boundary table (4097 blocks)",
     "C05": "; 1 in 4 keyed tuples with column-changing branches (add / remove / move columns per branch, shared new names), judged by column name; 1 in 4 with an all-empty key; 1 in 20 indices carry a second case, a history through the command line (`wrgl commit` / `branch create` / 3..4 `wrgl merge` steps with --ff / --no-ff / --ff-only / default: BRANCH behind, ahead of (by one or two commits), on the same commit as, or diverged from the commit merged in; a completed merge run again; merged again after one side moved on), the table of every branch read back after every merge and judged by the merge laws on a model of the commit graph; 1 in 10 indices carry the same tuple re-based on a header-only table (tag empty-base: no block, empty table index; every branch row is an addition); 1 in 10 (thorough 1 in 40) carry a case of what `wrgl merge` delivers (op merge-cli-deliver: the conflict keys and merged rows of the --no-gui CONFLICTS file, the --no-commit MERGE file, the merge commit; key in front, header-only / one-block / several-block base) on a healthy repository or with one block index / block / table index of the base or a branch deleted from the object store: whenever the command reports success the delivered rows and conflicts must be the three-way merge of the committed tables, a failure is accepted only when an object was taken away",
-    "C06": "; block indices built by IndexBlock (0..5 or 255 rows, keyed or keyless): written, read, re-written, stored, fetched, compared with the Lean codec; table profiles of real ingests decoded and re-encoded (no Lean model of the profile: re-encoding clauses only); 1 in 32 a history of 2..8 Save*/Delete* calls on one store that writes keys again (same content; other content under the same table sum for table index / profile), read back after every step and dumped at the end, against the finite map of Model/ObjStore.lean; 1 in 64 a stored table whose index and profile keys hold another table's / an older profiler's / damaged / the same / no bytes, refreshed by IndexTable + ProfileTable and compared with the same refresh onto absent keys",
+    "C06": "; block indices built by IndexBlock (0..5 or 255 rows, keyed or keyless): written, read, re-written, stored, fetched, compared with the Lean codec; table profiles of real ingests decoded and re-encoded; with each of them a generated profile VALUE (0..4 columns, every field present/absent/empty, any 64-bit float pattern, column names of 255..131072 bytes, top values up to 65535 bytes) written, read back, re-encoded, stored and fetched, its bytes compared with the writer of Model/Profile.lean, a text that does not fit 16 bits must be refused; 1 in 32 a history of 2..8 Save*/Delete* calls on one store that writes keys again (same content; other content under the same table sum for table index / profile), read back after every step and dumped at the end, against the finite map of Model/ObjStore.lean; 1 in 64 a stored table whose index and profile keys hold another table's / an older profiler's / damaged / the same / no bytes, refreshed by IndexTable + ProfileTable and compared with the same refresh onto absent keys",
     "C07": "; 1 in 5 extra tables header-only; 1 table in 3 has a block (a middle one or the last) whose final row ends with an empty cell; commit times in 13 zones (whole-hour and fractional offsets on both sides of UTC); 1 case in 4 negotiated: histories of 2..8 commits with more merges, the destination asks for 1..2 commits it lacks and reports its tips (sometimes more, sometimes an unknown hash, in 1..2 rounds, depth 0..3, optionally acknowledging tables it has), the real ClosedSetsFinder picks the commit list, tables and commons that ObjectSender then sends; the transfer must succeed and leave every ancestor of the wants (tables within the depth) and nothing outside the wanted history; 1 case in 4 (and every other negotiated one): every packfile of the transfer is also delivered cut short to a copy of the destination as it was before that packfile (inside the file header, at every object boundary, at every byte of objects up to 256 bytes, at 16 bytes from either end plus 16 drawn in between of larger ones; at most about 400 cuts per case): a cut on an object boundary is accepted, any other is refused, and the copy holds exactly the complete objects before the cut, identical to the source's",
     "C08": "; 1 case in 4: the refs live in rotating namespaces (heads, tags, remote-tracking, transaction refs txs/<id>/<branch>, custom); 1 case in 5: the session continues on the same finder after a refused request (a round whose wants include a commit no ref reaches, an unknown hash or a commit without its table, alone or with a legitimate want, placed before / between / after the generated rounds): refused rounds change nothing, everything sent must be justified by the accepted wants alone",
     "C09": "; every fourth case index adds one case of a kind chosen by the index (tag variant=…): multi-depth (3..4 heads forking from a shared trunk with 0..4 own commits, cross merges, `fetch --depth d` with d around the distance to the shared part), sender-fault (the remote's store fails its k-th read of a table / block / commit during a fetch, or a local table object is cut short before a push; the retry is judged too), "
@@ -342,7 +342,8 @@ _RULE_EXTRA = {
     "C14": "; 1 in 5 scenarios inject the fault into discard (crash or single error at each of its store operations) and discard again; commit faults as crash or single error; 1 in 5 scenarios: the fault is one failing SQL statement inside the ref store (trigger: either statement of a branch's logged ref update, the status flip, a staged-ref delete, the transaction-row delete), then re-run / discard; 1 in 100 (thorough 1 in 400): branches made and the transaction staged by `wrgl commit --txid` (file argument / branch.file / --all in turn), dumped before and after staging and after each `wrgl transaction commit/discard` (one with a staged commit unreadable)",
     "C15": "; 1 in 8 logged sets run with a failing reflog insert (SQL trigger): must fail and change nothing; 1 in 4 sequences: logged sets with generated author, action, time and transaction id (two ids or none), then logged set + copy/rename + log read of the target; log entries are compared in all their fields; 1 in 5 sequences (tag store=fs): 60..130 ops (thorough 40..260) on the file-based store pkg/ref/fs over 17 file names and the names bulk renames make of them: three refs take most logged sets (entries of 60..400 bytes, generated author/e-mail/action/time, old value handed in as ref.SaveRef does), so logs reach dozens of entries over several 1024-byte chunks of the backward scanner; rename/copy also into directories that held no log; single-directory prefix listings, bulk delete/rename of remotes; logs read in between and for every name at the end; 1 case in 20 (tag fs-rejected): a file-store history that also holds renames / copies / plain sets the directory layout has to refuse (destination is an existing directory or lies below a bound name; c15FsDomain a7): they must fail and change nothing, sources are read and renamed again afterwards",
     "C16": "; 1 in 4 cases: a merge of 2..3 branches (256..955 rows) with a deleted block / block index of base or branch or reads failing after k, under a 75 s watchdog, and without fault compared with the one-processor outcome; the table index is compared too; 1 in 4 of the rest: the commit command's ingest helper on a store that refuses the k-th write (must return the error, never hang); 1 in 5 of the rest: a progress bar created with total in {-1,0,1,5,10,1000}, moved by 0..4 Incr/SetTotal/SetCurrent calls, finished with Done() under a 20 s timer, compared with Model/PBar.lean; the merge consumer reaches the merge channel 0 / 0.3 / 20 ms after Start() (by case index) and, like `wrgl merge`, asks the merger for Columns() and PK() on the first message: they must be the merged table's columns and key, with or without a fault; on 1 case index in 6 additionally an ingest through a store whose writes take 0.5 / 2 / 5 ms (tag slow-store) with more blocks than the sorted-block channel's buffer and the workers hold together (buffer + 2..3 x effective workers + 1, sometimes a few more; 1 in 3 with the sorter spilling several runs to disk), so that the producer blocks in its sends and the last block is sent into a full channel: same table, row and block count as the single-threaded run; three such inputs are corpus cases (corpus/C16/slowstore.jsonl)",
-    "C17": "; well-formed packfiles whose block decompresses but is invalid, or whose table object lies about its blocks (key index out of range, wrong row count, wrong width); every 4-byte window of small objects overwritten by a huge count; profiles declaring fewer field names; commit / table / profile bytes also read through the store getters",
+    "C17": "; well-formed packfiles whose block decompresses but is invalid, or whose table object lies about its blocks (key index out of range, wrong row count, wrong width); every 4-byte window of small objects overwritten by a huge count; profiles declaring fewer field names; commit / table / profile bytes also read through the store getters; every string-list / uint-list input also through the decoders built with reuseRecords=true, through StrListDecoder.ReadBytes and the float-list decoder (tag decoder-option); with every receiver case a well-formed packfile whose commit lacks a parent (only parent absent / second parent of a merge absent with the first already in the destination / child sent before its parent)",
+    "C18": "; the string-list and uint-list streams also through the decoders built with reuseRecords=true and through StrListDecoder.ReadBytes; with every string-list case a row stream (1..14 rows of 0..5 cells up to 6000 bytes, read with ONE decoder until end of stream by Read and by ReadBytes, both options) under 3 (thorough 8) random chunkings and under fixed 4096- and 512-byte blocks at phase 0 and at a random phase, compared with the whole-buffer result and the Lean row-stream model",
     "C19": "; keyless tables over a tiny alphabet with the empty cell; the two outputs must agree also when keys repeat; on 1 in 12 case indices also 1..10 rows with 1..3 cells of 65533..65536 bytes in removed / kept / key columns (tag limit-cell); on 2 in 12 also one sorter used for 2..3 tables of different shapes with Reset() in between (op sort-reuse), the earlier uses abandoned after AddRow / read under a cancelled context / read to the end: every use read to the end must satisfy the same clauses for its own table and agree with the model started from the empty state, and after Close() no spill file of any use may be left",
     "C20": "; 1 in 8: 256..335 hashes sharing a first byte added in one batch; 1 case in 5 (tag read-fault): flushes and adds that meet one injected read error of the fan-out table before their first write "
            "(the file is untouched) and are retried, judged by the same clauses on the flushes that follow; 1 case in 400 (op bulk, tag bulk): batch sizes above 65536 with 65536..65836 hashes of one first byte "
